@@ -42,6 +42,14 @@ def check_pkg(case) -> list[Fail]:
     f: list[Fail] = []
     mods = [modgen.mk_module(m) for m in case["modules"]]
     exts = [extgen.mk_extension(e) for e in case["exts"]]
+    if mods and exts and exts[0].operations:
+        # a node of the first module names an operation of the first bundled extension, with a description of its
+        # own: decoding the package does not resolve (and so does not rewrite) the modules
+        import hugr.ops as hops
+        import hugr.tys as htys
+
+        od = next(iter(exts[0].operations.values()))
+        mods[0].add_node(hops.Custom(op_name=od.name, signature=htys.FunctionType([], []), description="the node's own description", extension=exts[0].name), mods[0].root)
     p = Package(mods, exts)
     try:
         fmt = {"JSON": EnvelopeFormat.JSON, "MODULE": EnvelopeFormat.MODULE, "MODULE_WITH_EXTS": EnvelopeFormat.MODULE_WITH_EXTS}[case["format"]]
